@@ -246,23 +246,38 @@ PROPS = {
         "streams": [("c03t", 12, 300), ("c03", 10, 300, {"oracle_only": True}),
                     # the FRI remainder / layer-value clauses of C03 at the FRI level: adaptive remainder
                     # substitution through the queried points, altered layer values (shared with C09)
-                    ("c09", 2, 12)],
+                    ("c09", 2, 12),
+                    # the whole-verifier model (lean/Wf/Model/Verifier.lean) against the real verify():
+                    # substituted revealed data / commitments in honest proofs over the test hasher
+                    ("vfy3", 20, 150)],
         "trusted": [TIE_C,
+                    "whole-verifier model lean/Wf/Model/Verifier.lean (verify, perform_verification, VerifierChannel::new and readers, evaluate_constraints, DeepComposer, grinding, query positions, FRI, with the AIR-as-data interpreter of harness/src/genair.rs): stream vfy3 runs the REAL prover and verifier over the fully specified test hasher VH (harness/src/vmodel.rs, mirrored in lean/Wf/Drv/Verifier.lean), so the model recomputes every digest, challenge and query position; one queried trace / constraint value, one Merkle node, one FRI layer value, one remainder coefficient, one OOD element or one commitment byte is changed and the real verifier must answer with the SAME VerifierError variant as the model (oracle: an error)",
                     "transcript model lean/Wf/Model/Transcript.lean, compared event by event with the REAL verifier through a logging RandomCoin (harness/src/tamper.rs::LogCoin) that labels every reseed digest by the commitment it equals",
                     "stream c03 is oracle-only (no Lean answer): one byte of every revealed component (trace queries, constraint queries, OOD frame, FRI layers and remainder) or of the commitments is changed in honest proofs of generated AIRs; the oracle demands rejection"],
         "assumptions": ["rejection of substituted rows rests on collision resistance of the hash (C19 states it as injectivity of merge); C09 covers the FRI-level adaptive remainder substitution"],
         "rule": "c03t: one request per honest proof (aux/no aux, LDE size, FRI parameters, queries) -> full event sequence of the verifier; c03: distinct (component, byte offset) substitutions",
     },
     "C04": {
-        "streams": [("c04", 8, 200, {"oracle_only": True})],
-        "trusted": ["stream c04 is oracle-only: byte-level (flip/substitute/insert/delete/truncate/append/length-field/huge-vint/swap) and field-level (nonce, unique-query count, trace metadata) mutations of honest proofs of generated AIRs; the real Proof::from_bytes + verify must reject, or accept only if the parsed Proof == the original (PartialEq on all components)",
+        "streams": [("c04", 8, 200, {"oracle_only": True}),
+                    # whole-verifier model against the real verify(): the twelve byte-level classes and
+                    # the structured single-field edits; oracle = accepted only if the mutated bytes
+                    # parse to the SAME proof
+                    ("vfy4", 20, 150)],
+        "trusted": [TIE_C,
+                    "whole-verifier model lean/Wf/Model/Verifier.lean tied to the real verify() by stream vfy4 (harness/src/vmodel.rs: real prover + verifier over the test hasher VH, f64 with extension degrees 1..3, no auxiliary segment): ~45 mutations per honest proof, the implementation's verdict (ok / VerifierError variant / panic site) must be IDENTICAL to the model's; theorem Wf.Props.C05V.verify_deterministic_in_parsed_proof: the model's verdict is a function of the parsed proof",
+                    "stream c04 is oracle-only: byte-level (flip/substitute/insert/delete/truncate/append/length-field/huge-vint/swap) and field-level (nonce, unique-query count, trace metadata) mutations of honest proofs of generated AIRs; the real Proof::from_bytes + verify must reject, or accept only if the parsed Proof == the original (PartialEq on all components)",
                     "proof encoding model lean/Wf/Model/ProofObjects.lean (tied by the obj stream of C07)"],
         "assumptions": ["that accepted-but-different proofs do not exist is a binding (cryptographic) statement; only the decode-side facts are theorems"],
         "rule": "distinct mutated encodings; the histogram records mutation kinds and how many stayed acceptable (appended bytes)",
     },
     "C05": {
-        "streams": [("obj", 80, 2000), ("c05", 6, 200, {"oracle_only": True})],
+        "streams": [("obj", 80, 2000), ("c05", 6, 200, {"oracle_only": True}),
+                    # whole-verifier model against the real verify(): honest proofs and ~50 mutations
+                    # each; oracle = never a panic / hang
+                    ("vfy", 20, 150)],
+        "extra_props": ["C05V"],
         "trusted": [TIE_C,
+                    "whole-verifier model lean/Wf/Model/Verifier.lean (Proof::from_bytes + verify for the AIR-as-data interpreter GenAir, DefaultRandomCoin, MerkleTree, any 32-byte hasher, f64 and its extensions) tied to the real verify() by stream vfy (harness/src/vmodel.rs: real prover + verifier over the test hasher VH mirrored in lean/Wf/Drv/Verifier.lean): the answer ok / err <VerifierError variant> / PANIC <source file> must be IDENTICAL; the theorems of Wf/Props/C05V.lean are about this model",
                     "decoder models lean/Wf/Model/ProofObjects.lean / Serde.lean / FieldCodec.lean (abort = panic or allocation abort)",
                     "stream c05 is oracle-only: structure-aware and random mutations of honest proofs go through the real Proof::from_bytes and verify under catch_unwind, a 3 s watchdog and an 8 GiB address-space limit; any panic/abort/hang is a violation"],
         "assumptions": ["verify() itself is not modelled in Lean (partial): its panic-freedom is explored, not proved"],
@@ -277,11 +292,28 @@ PROPS = {
             {"features": ["concurrent"], "env": {"RAYON_NUM_THREADS": "1"}, "tiers": ["thorough"]},
             {"features": ["concurrent"], "env": {"RAYON_NUM_THREADS": "6"}, "tiers": ["thorough"]},
             {"features": ["concurrent"], "env": {"RAYON_NUM_THREADS": "7"}, "tiers": ["thorough"]},
-            {"features": ["concurrent"], "env": {"RAYON_NUM_THREADS": "12"}, "tiers": ["thorough"]}]})],
+            {"features": ["concurrent"], "env": {"RAYON_NUM_THREADS": "12"}, "tiers": ["thorough"]}]}),
+                    # index bookkeeping of the parallel code: request lines carry the thread count; the
+                    # serial build answers (documented plan / real serial run) are compared with the Lean
+                    # model lean/Wf/Model/ParBook.lean, the concurrent build runs the REAL macro / evaluator
+                    # inside rayon pools of exactly that size (1,2,3,5,6,7,8,12,16 and random 1..24,
+                    # whatever RAYON_NUM_THREADS says) and must give the same answers
+                    ("c06b", 1, 2, {"variants": [
+                        {"features": ["concurrent"], "env": {"RAYON_NUM_THREADS": "4", "MALLOC_ARENA_MAX": "4"}}]}),
+                    # composition-polynomial trace of the real evaluate() (after combine()/acc_column) on
+                    # the same probes: digest under every pool size = digest of the serial build
+                    ("c06c", 1, 2, {"oracle_only": True, "variants": [
+                        {"features": ["concurrent"], "env": {"RAYON_NUM_THREADS": "4"}}]})],
         "trusted": ["cross-build comparison: the same seeded instances (exact trace lengths 2^5..2^13, every second one with periodic cycles up to the trace length) are proved by the serial harness build and by the `concurrent` build under RAYON_NUM_THREADS = 2, 3, 5, 16 (thorough: also 1, 6, 7, 12); digests of context, commitments, OOD frame, the nonce and the whole proof must coincide (grinding is 0, so whole proofs must be byte-identical)",
-                    "the async prover variant (maybe_async) is NOT covered"],
-        "assumptions": ["scheduler behaviour is explored at 4 (thorough: 8) thread counts incl. non-powers of two, not proved; bookkeeping theorems live in C14/C12/C18"],
-        "rule": "instances with trace lengths up to 2^13 (both sides of the 1024-row / 8192-evaluation thresholds), several fields/hashers",
+                    TIE_C + " (stream c06b)",
+                    "bookkeeping model lean/Wf/Model/ParBook.lean (hand-written from utils/core/src/iterators.rs batch_iter_mut! both arms, prover/src/constraints/evaluation_table.rs fragments / make_fragments / acc_column / get_inv_evaluation, prover/src/constraints/evaluator/default.rs evaluate / evaluate_fragment_main, periodic_table.rs get_row, domain.rs get_ce_x_power_at; indexes only: the arithmetic done with the looked-up values is a parameter function; a panic is `none`); batchIterMut3 is definitionally C14's chunkPlan",
+                    "tie of the model (stream c06b): (a) `plan`/`plan2` lines: the public macro batch_iter_mut! is expanded in the harness and run inside rayon::ThreadPoolBuilder pools of 1,2,3,5,6,7,8,12,16 (and random 1..24) threads; the (offset, length) of every batch the closure saw = the model's plan; (b) `eval` lines: ConstraintEvaluationTable, PeriodicValueTable and acc_column are PRIVATE to winter-prover, so the public DefaultConstraintEvaluator::evaluate is run inside such pools on a probing TraceLde (records the LDE step of every frame read; a fresh zero-initialised frame buffer marks a fragment start) and a probing Air (records the periodic value each row receives, mapped back to a table row through an independent polynom::eval of the column polynomial): fragments (offset, rows), the sequence of LDE steps and the sequence of periodic table rows in global order = the model's; the serial harness build has no rayon: for thread count 1 it runs the real serial code, for the other counts it answers the plan / fragment part with the documented plan (harness/src/c06b.rs documented_plan / documented_frags) while the digests are always real; model = serial answers and serial answers = concurrent answers are both checked, hence real concurrent plan = model plan",
+                    "acc_column's batch-local divisor index and combine() are observed only through their result: stream c06c (oracle-only) compares the digest of the composition-polynomial trace returned by the real evaluate() under every pool size with the serial build's",
+                    "side conditions of acc_column_thread_independent / acc_column_prover_instance are read off the source, not proved about it: result.len() = ce_domain_size = trace_length * ce_blowup (AirContext), both powers of two; z.len() = ce_domain_size / numerator degree = ce_blowup for the transition divisor (ConstraintDivisor::from_transition, get_inv_evaluation); ce_blowup <= blowup_factor <= 128 (AirContext::new, ProofOptions::new asserts) = the literal minimum batch size 128 in acc_column",
+                    "the async prover variant (maybe_async) is NOT covered; rayon itself (par_chunks_mut, par_iter_mut hand out disjoint chunks, every chunk exactly once) is trusted"],
+        "assumptions": ["scheduler behaviour is explored at 4 (thorough: 8) thread counts incl. non-powers of two for whole proofs and at 9 + random pool sizes for the bookkeeping, not proved; the bookkeeping theorems cover every length / thread count / minimum batch size on the model",
+                        "fewer than 2^64 elements (usize arithmetic without overflow); rayon pools have >= 1 thread"],
+        "rule": "c06: instances with trace lengths up to 2^13 (both sides of the 1024-row / 8192-evaluation thresholds), several fields/hashers; c06b: batch plans for 9 thread counts x both macro arms x minimum batch sizes 1/7/128/1024 x lengths 0..17, 2^5..2^15, around every min*threads and min*next_pow2(threads) boundary, 10^5, 2^20+3, plus seeded random (length, minimum, threads 1..24); evaluator probes for constraint evaluation domains 32..32768 (below / at / above MIN_CONCURRENT_DOMAIN_SIZE), ce blowup 2..128, LDE blowup above the ce blowup, periodic tables from 4 rows to the whole domain and none, x 9 thread counts, plus one thread count (600) beyond the fragment-size assertion; c06c: the same probes, composition trace digest; non-trivial = distinct request line",
     },
     "C28": {
         "streams": [("c28", 10, 13, {"variants": [
